@@ -118,7 +118,11 @@ def check_property(pid, tier, seed, relock=False, only=None, jobs=None, verbose=
         bounded = run_bounded(pid, tier, seed)
     b_viol = []
     if bounded:
+        seen_keys = set()
         for f in bounded.get("failures", []):
+            if f.get("key") in seen_keys:
+                continue
+            seen_keys.add(f.get("key"))
             kf = next((k for k in findings if k.get("property") == pid and k.get("status", "open") == "open" and k.get("bounded_key") and k["bounded_key"] == f.get("key")), None)
             if kf is not None:
                 if kf["id"] not in [k["id"] for k in known]:
